@@ -291,6 +291,39 @@ theorem dropLastKept_sub (tol : Rat) (kept1 : List (Rat × Rat)) :
     · exact List.Sublist.refl _
   · exact List.Sublist.refl _
 
+/-- the test of the middle loop: the middle point is a turning point of a vertical run, or lies more than
+    `tol` (in `y`) off the chord through its two neighbours -/
+def OffChord (tol : Rat) (p1 p2 p3 : Rat × Rat) : Prop :=
+  if p1.1 = p3.1 then p1.1 ≠ p2.1
+  else tol < rabs (p2.2 - (p1.2 + (p3.2 - p1.2) * (p2.1 - p1.1) / (p3.1 - p1.1)))
+
+theorem keepInterior_keeps (tol : Rat) : ∀ (l : List (Rat × Rat)) (i : Nat) (h : i + 2 < l.length),
+    OffChord tol l[i] l[i + 1] l[i + 2] → l[i + 1] ∈ keepInterior tol l
+  | [], i, h, _ => by simp at h
+  | [_], i, h, _ => by simp at h
+  | [_, _], i, h, _ => by simp at h
+  | (x1, y1) :: (x2, y2) :: (x3, y3) :: rest, 0, _, hoff => by
+    unfold keepInterior
+    simp only [OffChord, List.getElem_cons_zero, List.getElem_cons_succ] at hoff
+    simp only
+    split_ifs with h1 h2 h3
+    · exact List.mem_cons_self
+    · rw [if_pos h1] at hoff; exact absurd hoff h2
+    · exact List.mem_cons_self
+    · rw [if_neg h1] at hoff; exact absurd hoff h3
+  | (x1, y1) :: (x2, y2) :: (x3, y3) :: rest, i + 1, h, hoff => by
+    have ih := keepInterior_keeps tol ((x2, y2) :: (x3, y3) :: rest) i (by simp at h ⊢; omega)
+      (by simpa using hoff)
+    have ih' : ((x1, y1) :: (x2, y2) :: (x3, y3) :: rest)[i + 1 + 1] ∈ keepInterior tol ((x2, y2) :: (x3, y3) :: rest) := by
+      simpa using ih
+    unfold keepInterior
+    simp only
+    split_ifs
+    · exact List.mem_cons_of_mem _ ih'
+    · exact ih'
+    · exact List.mem_cons_of_mem _ ih'
+    · exact ih'
+
 theorem dedupAdj_sublist : ∀ l : List (Rat × Rat), (dedupAdj l).Sublist l
   | [] => by simp [dedupAdj]
   | [_] => by simp [dedupAdj]
